@@ -59,6 +59,14 @@ SnapOK(e) ==
   \* the buffer covers the configuration's need (it may be longer: how much of the owned memory is kept "in use"
   \* between configurations is not observable and not part of any property)
   /\ s.len >= s.wc * Blocks(cfg'.sb) /\ s.cap >= s.len
+  \* DecWork!LayoutOK on the real object: the two index ranges of the shared bitmap are disjoint and lie inside the
+  \* bitmap and inside the work positions - WHERE they lie is not pinned (an overlap would make an original pass for a
+  \* recovery shard of another index; a range outside the bitmap or the work positions is an index panic waiting for
+  \* the right index)
+  /\ (Role = "dec" /\ Has(s, "obase") /\ Has(s, "rbase") /\ Has(s, "bits")) =>
+        /\ (s.obase + s.k <= s.rbase \/ s.rbase + s.r <= s.obase)
+        /\ s.obase + s.k <= s.bits /\ s.rbase + s.r <= s.bits
+        /\ s.obase + s.k <= s.wc /\ s.rbase + s.r <= s.wc
 
 \* the return value is one of the allowed ones
 \* (the Display text of an error is recorded in the trace but not constrained: no property speaks about wording)
